@@ -5,6 +5,7 @@ mod corpus;
 mod gen;
 mod rng;
 mod p15;
+mod p16;
 
 use serde_json::{json, Value};
 use std::collections::HashSet;
@@ -97,6 +98,7 @@ fn main() {
     }));
     let batch = match args.id.as_str() {
         "C15" => p15::run(&args),
+        "C16" => p16::run(&args),
         other => {
             eprintln!("unknown property {}", other);
             std::process::exit(2);
